@@ -3,6 +3,8 @@
 package executor
 
 import (
+	"github.com/cbergoon/merkletree"
+	"bytes"
 	"encoding/json"
 	"math/big"
 
@@ -134,6 +136,21 @@ func ZZH_C05_group_timeout() {
 	zz.Assert("C05.timeout.global-begin-rollback", post.GlobalState == pb.TransactionStatus_BEGIN_ROLLBACK)
 	for _, k := range kids {
 		zz.Assert("C05.timeout.child-begin-rollback", post.ChildTxInfo[k] == pb.TransactionStatus_BEGIN_ROLLBACK)
+	}
+	// the header's timeout root commits to exactly the per-chain roots stored in the block's
+	// metadata, in their stored (canonical) order - whatever order the chains were visited in (C01)
+	blk, errB := exec.ledger.GetBlock(1, false)
+	zz.Assert("C05.timeout.block-stored", errB == nil)
+	if errB == nil {
+		var leaves []merkletree.Content
+		for i := range im.TimeoutL2Roots {
+			r := im.TimeoutL2Roots[i]
+			leaves = append(leaves, &r)
+		}
+		for i := 1; i < len(im.TimeoutL2Roots); i++ {
+			zz.Assert("C01.timeout-l2-roots-canonical-order", bytes.Compare(im.TimeoutL2Roots[i-1].Bytes(), im.TimeoutL2Roots[i].Bytes()) < 0)
+		}
+		zz.Assert("C01.timeout-root-commits-to-the-stored-per-chain-roots", blk.BlockHeader.TimeoutRoot.String() == zzRefRoot(leaves).String())
 	}
 	// determinism of the list order (C01): the source list is in a canonical order
 	if sl, ok := im.TimeoutCounter["chA"]; ok && len(sl.Slice) == 2 {
